@@ -200,6 +200,7 @@ def run_check(prop, tier, seed):
             violations.append(('extraction', {'property': prop, 'what': 'extracted binary and vm_compute disagree',
                                               'error': err}, False))
 
+    extra_noinput = []
     # ---- 6. extra per-property checks (numeric tests labelled as tests, exhaustive tables, ...) ----
     if hasattr(mod, 'extra'):
         try:
@@ -212,6 +213,9 @@ def run_check(prop, tier, seed):
                         kf = f
                 if kf:
                     known_seen[kf['id']] = kf.get('what', '')
+                elif v.get('no_input') or v.get('case') is None:
+                    # a broken obligation for which the search found no concrete failing input
+                    extra_noinput.append(v)
                 else:
                     oracle_fail.append((v.get('case'), v.get('impl'), v.get('what')))
         except Exception:
@@ -232,6 +236,9 @@ def run_check(prop, tier, seed):
         violations.append(('property', {'property': prop, 'kind': 'failing input', 'case': C.jsonable(c),
                                         'impl_result': C.jsonable(impl), 'what': msg,
                                         'how_to_replay': f'./check replay <this file>'}, True))
+    for v in extra_noinput[:3]:
+        violations.append(('extra', {'property': prop, 'kind': 'obligation broken, no failing input found',
+                                     'what': v.get('what'), 'detail': C.jsonable(v.get('detail'))}, False))
     if not oracle_fail:
         if disagreements:
             c, impl, msg = disagreements[0]
